@@ -168,9 +168,15 @@ func (v Value) IsNaN() bool {
 	// that cannot be converted to a number is reported as NaN.
 	isNaN := true
 	catchPanic(func() { //nolint:errcheck, gosec
-		isNaN = math.IsNaN(v.float64())
+		isNaN = v.isNaN()
 	})
 	return isNaN
+}
+
+// isNaN is IsNaN for use inside the interpreter: whatever the conversion of an
+// object throws (or an interrupt function panics with) propagates.
+func (v Value) isNaN() bool {
+	return math.IsNaN(v.float64())
 }
 
 // IsString will return true if value is a string (primitive).
